@@ -1,60 +1,11 @@
 //! `vh` — verification harness: runs /repo's typify on JSON-lines cases.
 //! Every subcommand reads one JSON case per stdin line and writes one JSON
 //! result per stdout line (same order).  Panics are caught and reported.
-use std::io::{BufRead, Write};
 
 mod c10;
 mod tables;
 
-pub fn run_lines<F>(f: F)
-where
-    F: Fn(&serde_json::Value) -> serde_json::Value + std::panic::RefUnwindSafe,
-{
-    std::panic::set_hook(Box::new(|_| {}));
-    let stdin = std::io::stdin();
-    let stdout = std::io::stdout();
-    let mut out = std::io::BufWriter::new(stdout.lock());
-    for line in stdin.lock().lines() {
-        let line = line.expect("stdin");
-        if line.trim().is_empty() {
-            continue;
-        }
-        let v: serde_json::Value = match serde_json::from_str(&line) {
-            Ok(v) => v,
-            Err(e) => {
-                writeln!(out, "{}", serde_json::json!({"r":"badcase","msg":e.to_string()})).unwrap();
-                continue;
-            }
-        };
-        let res = std::panic::catch_unwind(|| f(&v));
-        let res = match res {
-            Ok(r) => r,
-            Err(e) => {
-                let msg = if let Some(s) = e.downcast_ref::<String>() {
-                    s.clone()
-                } else if let Some(s) = e.downcast_ref::<&str>() {
-                    s.to_string()
-                } else {
-                    "?".to_string()
-                };
-                serde_json::json!({"r":"panic","msg":msg})
-            }
-        };
-        writeln!(out, "{}", res).unwrap();
-    }
-}
-
-pub fn err_kind(e: &typify_impl::Error) -> serde_json::Value {
-    use typify_impl::Error::*;
-    match e {
-        BadValue(a, _) => serde_json::json!({"r":"err","kind":"BadValue","msg":a}),
-        InvalidTypeId => serde_json::json!({"r":"err","kind":"InvalidTypeId"}),
-        InvalidValue => serde_json::json!({"r":"err","kind":"InvalidValue"}),
-        InvalidSchema { reason, .. } => {
-            serde_json::json!({"r":"err","kind":"InvalidSchema","msg":reason})
-        }
-    }
-}
+pub use vh::{err_kind, run_lines};
 
 fn main() {
     let args: Vec<String> = std::env::args().collect();
@@ -62,6 +13,7 @@ fn main() {
     match cmd {
         "c10" => c10::main(),
         "tables" => tables::main(&args[2..]),
+        "gen" => vh::run_lines(vh::gen_case),
         _ => {
             eprintln!("usage: vh <c10|tables> ...");
             std::process::exit(2);
